@@ -6,6 +6,7 @@ import (
 	"io"
 	"regexp"
 	"sync"
+	"sync/atomic"
 	"time"
 
 	"github.com/scrapli/scrapligo/logging"
@@ -106,7 +107,8 @@ type Channel struct {
 	PromptPattern     *regexp.Regexp
 	ReturnChar        []byte
 
-	done chan struct{}
+	done   chan struct{}
+	closed atomic.Bool
 
 	Q              *util.Queue
 	Errs           chan error
@@ -184,6 +186,12 @@ func (c *Channel) Close() error {
 	c.l.Info("channel closing...")
 
 	util.Yield("chan.close.entry")
+
+	if !c.closed.CompareAndSwap(false, true) {
+		// already closed (or being closed) -- closing a second time must not panic on the already
+		// closed Errs channel, there is nothing left to do.
+		return nil
+	}
 
 	close(c.Errs)
 
